@@ -15,6 +15,7 @@
   real validator on every run (`corr/C06.py: memo_mode_table`, 152 documents).
 -/
 import PyGqlModel.Props.C06_overlap_memo
+import PyGqlModel.Validate.OverlapMemoPairKeyed
 namespace PyGql.Props.C06
 open PyGql PyGql.Validate PyGql.Validate.Spec
 
@@ -55,5 +56,22 @@ theorem memo_modes_invalid : ∀ dd ∈ pDocs, ¬ Spec.overlappingFieldsCanBeMer
     plain field) is silent: `... on Dog { owner { label } } ... on Cat { owner { ...Y } } ... on Cat { owner { ...Y } }` -/
 example : (overlapMemoRun pSchema Fixes.all
     (pDoc pF1 pF2 (.inline (some "Cat") [] 30 [.field none "owner" [] [] true 31 [sp "Y"]]))).1 = 0 := by decide +kernel
+
+/-! ### why the flag belongs to the key
+
+`Validate/OverlapMemoPairKeyed.lean` is the search with the memo of seeded change C06-11 (pair-keyed map with the coverage
+test `previous or not mutually_exclusive`). On the same six documents it is SILENT in exactly the three orders in which
+the Cat selection precedes the second Dog selection - the verdict depends on the order of the selections, and an invalid
+document is accepted; the triple-keyed search of /repo reports in all six (`memo_modes_reported`). -/
+
+/-- the pair-keyed variant accepts the (invalid) document in three of the six orders -/
+theorem pair_keyed_memo_loses_report :
+    pDocs.map (fun dd => decide ((overlapPairRun pSchema Fixes.all dd).1 = 0)) = [true, false, true, true, false, false] := by
+  decide +kernel
+
+/-- ... so it is not verdict-neutral, and not invariant under reordering selections: witness orders f1 f2 f3 / f1 f3 f2 -/
+theorem pair_keyed_memo_order_dependent :
+    (overlapPairRun pSchema Fixes.all (pDoc pF1 pF2 pF3)).1 = 0 ∧ 0 < (overlapPairRun pSchema Fixes.all (pDoc pF1 pF3 pF2)).1 ∧
+    0 < (overlapMemoRun pSchema Fixes.all (pDoc pF1 pF2 pF3)).1 := by decide +kernel
 
 end PyGql.Props.C06
